@@ -189,6 +189,154 @@ func runC15(w *World, r *Report) {
 	c15Switches(w, r, a, sp)
 	c15Gate(w, r, sp)
 	c15ExecOnlyAuthorized(w, r)
+	c15EveryUsageChecked(w, r)
+}
+
+// c15EveryUsageChecked: R-C15-6. In the loop over p.Tables() every iteration
+// must pass the true edge of an authorization call; no path (an early
+// `continue`, a memo of already-seen names) may skip the check for a usage.
+func c15EveryUsageChecked(w *World, r *Report) {
+	r.Rule("R-C15-6", "loop must-pass-through: in each authorizer every iteration of the loop over Tables() crosses the true edge of an authorization call (Authorized / authorizedForTable / authorizedForDDL); the no-case-matched exit of the exhaustive UsageMode switch is treated as infeasible", 2)
+
+	type target struct{ pkg, fn string }
+
+	for _, t := range []target{{"internal/server/tables", "authorizeStatement"}, {"internal/server/tables/scripting", "authorizeAndClassifySQL"}} {
+		p := w.pkg(t.pkg)
+		fn := w.ssaFunc(p, t.fn)
+
+		if fn == nil {
+			r.Anchor("R-C15-6", t.pkg+"."+t.fn)
+
+			continue
+		}
+
+		// the loop that ranges over the result of Tables()
+		var tables *ssa.Call
+
+		allInstrs(fn, func(in ssa.Instruction) {
+			if c, ok := in.(*ssa.Call); ok && callID(c.Common()) == "internal/sqlparse.Sqlparse.Tables" {
+				tables = c
+			}
+		})
+
+		var loop *loopInfo
+
+		for _, li := range naturalLoops(fn) {
+			// an IndexAddr on the Tables() slice inside the body
+			for b := range li.body {
+				for _, in := range b.Instrs {
+					if ia, ok := in.(*ssa.IndexAddr); ok && tables != nil && ia.X == ssa.Value(tables) {
+						loop = li
+					}
+				}
+			}
+		}
+
+		key := fnKey(fn) + "|Tables()-loop"
+
+		if tables == nil || loop == nil {
+			r.Anchor("R-C15-6", "loop over Tables() in "+t.fn)
+
+			continue
+		}
+
+		isAuth := func(v ssa.Value) bool {
+			c, ok := v.(*ssa.Call)
+			if !ok {
+				return false
+			}
+
+			cf := calleeFunction(c.Common())
+			if cf == nil {
+				// dynamic call through AuthorizedFunc is wrapped by authorizedForTable
+				return false
+			}
+
+			switch cf.Name() {
+			case "Authorized", "authorizedForTable":
+				return true
+			}
+
+			return ddlAuthorityFunction(cf)
+		}
+
+		nAuth := 0
+
+		cuts := cutEdges(fn, func(f Fact) bool {
+			if f.Kind == "true" && isAuth(f.V) {
+				nAuth++
+
+				return true
+			}
+
+			return false
+		})
+
+		// infeasible exit of the exhaustive switch on t.Usage: among the Ifs
+		// that compare one value with constants, the false edge of the last.
+		groups := map[ssa.Value][]*ssa.BasicBlock{}
+
+		for b := range loop.body {
+			if ifi, ok := b.Instrs[len(b.Instrs)-1].(*ssa.If); ok {
+				if bo, ok := ifi.Cond.(*ssa.BinOp); ok && bo.Op.String() == "==" {
+					if _, isC := bo.Y.(*ssa.Const); isC && isFieldNamed(bo.X, "Usage") {
+						groups[bo.X] = append(groups[bo.X], b)
+					}
+				}
+			}
+		}
+
+		for _, blocks := range groups {
+			inGroup := map[*ssa.BasicBlock]bool{}
+			for _, b := range blocks {
+				inGroup[b] = true
+			}
+
+			for _, b := range blocks {
+				if !inGroup[b.Succs[1]] {
+					cuts[Edge{b, 1}] = true
+				}
+			}
+		}
+
+		if nAuth < 3 {
+			r.Violate("R-C15-6", key, w.pos(fn.Pos()), "fewer than three authorization branches found in the loop over Tables()")
+
+			continue
+		}
+
+		if latch := iterationAvoiding(loop, cuts, func(ssa.Instruction) bool { return false }); latch != nil {
+			pos := w.pos(fn.Pos())
+			if len(latch.Instrs) > 0 {
+				pos = w.pos(latch.Instrs[len(latch.Instrs)-1].Pos())
+
+				for _, in := range latch.Instrs {
+					if in.Pos().IsValid() {
+						pos = w.pos(in.Pos())
+					}
+				}
+			}
+
+			r.Violate("R-C15-6", key, pos, "an iteration of the loop over Tables() can complete without any authorization call succeeding (a skip/continue path): that table usage is executed unchecked")
+		} else {
+			r.Discharge("R-C15-6", key, w.pos(tables.Pos()), "every iteration crosses an authorization true-edge or returns")
+		}
+	}
+}
+
+func isFieldNamed(v ssa.Value, name string) bool {
+	if u, ok := v.(*ssa.UnOp); ok {
+		v = u.X
+	}
+
+	switch x := v.(type) {
+	case *ssa.FieldAddr:
+		return fieldName(x.X.Type(), x.Field) == name
+	case *ssa.Field:
+		return fieldName(x.X.Type(), x.Field) == name
+	}
+
+	return false
 }
 
 func findTypeSwitch(fd *ast.FuncDecl) *ast.TypeSwitchStmt {
